@@ -26,6 +26,12 @@ def parse(s):
         if m is None:
             raise TermError("unexpected end in %r" % s)
         pos[0] = m.end()
+        if t == ("name", ":"):
+            return ("sym", ":")
+        if t[0] == "name" and t[1].endswith(":") and not t[1].endswith("::"):
+            # `field:` inside an aggregate: give the colon back
+            pos[0] -= 1
+            t = ("name", t[1][:-1])
         return t
 
     def expect(sym):
@@ -83,7 +89,20 @@ def parse(s):
                     take()
                     node = ("var", t[1] + "{}")
                 else:
-                    raise TermError("aggregate with fields in %r" % s)
+                    fields = []
+                    while True:
+                        fn_ = take()
+                        if fn_[0] not in ("name", "int"):
+                            raise TermError("field name in %r" % s)
+                        expect(":")
+                        fields.append((str(fn_[1]), expr()))
+                        m4, t4 = peek()
+                        if t4 == ("sym", ","):
+                            take()
+                            continue
+                        break
+                    expect("}")
+                    node = ("agg", t[1], tuple(fields))
             else:
                 node = ("var", t[1])
         else:
@@ -165,4 +184,39 @@ def leaves(node, pred, out=None):
     elif node[0] == "app":
         for a in node[2]:
             leaves(a, pred, out)
+    elif node[0] == "agg":
+        for _, a in node[2]:
+            leaves(a, pred, out)
     return out
+
+
+def linear(node):
+    """Integer term as a linear form {atom repr: coeff, 1: const} or None (not linear / unknown)."""
+    k = node[0]
+    if k == "int":
+        return {1: node[1]}
+    if k == "proj":
+        return linear(node[1])
+    if k == "cast":
+        return linear(node[1])  # value-preserving casts assumed (checked elsewhere)
+    if k == "app":
+        name = node[1].split("::")[-1]
+        if name in ("Add", "AddWithOverflow", "Sub", "SubWithOverflow") and len(node[2]) == 2:
+            a, b = linear(node[2][0]), linear(node[2][1])
+            if a is None or b is None:
+                return None
+            sgn = 1 if name.startswith("Add") else -1
+            out = dict(a)
+            for key, c in b.items():
+                out[key] = out.get(key, 0) + sgn * c
+            return {key: c for key, c in out.items() if c != 0 or key == 1}
+        if name in ("from", "into", "try_from", "try_into", "unwrap", "expect", "ok") and len(node[2]) >= 1:
+            return linear(node[2][0])
+    return {repr(node): 1}
+
+
+def lin_sub(a, b):
+    out = dict(a)
+    for key, c in b.items():
+        out[key] = out.get(key, 0) - c
+    return {key: c for key, c in out.items() if c != 0}
